@@ -55,6 +55,9 @@ def make_cfg(seed, i, typ):
                                term_p=0.0)
         if cfg.get("proj") or cfg.get("reg"):
             cfg["args"]["maxfun"] = min(cfg["args"]["maxfun"], 18)
+        if i % 3 == 2:
+            # budget / exit enumeration over a long growing phase (its safety steps evaluate points and can end or restart the run)
+            cfg = campaign.long_growing_cfg(rng, deterministic=True)
     elif typ == "rand":
         cfg = campaign.gen_cfg(rng, deterministic=True, restarts_p=0.5, maxfuns=(5, 8, 12, 25, 40, 60, 100))
     elif typ == "proj":
@@ -115,6 +118,14 @@ def make_cfg(seed, i, typ):
             cfg["args"]["maxfun"] = min(cfg["args"]["maxfun"], 25)
         if i % 4 == 1:
             cfg = campaign.growing_restart_variant(cfg, rng, nan_fault=False)
+        elif i % 4 == 2:
+            # linear-algebra failures inside the safety steps of a long growing phase, with soft restarts on: the restart
+            # branches of the growing-phase code
+            cfg = campaign.long_growing_cfg(rng, deterministic=True, safety=gen.pick(rng, ["full_geom_step", "full_geom_step", "default", "reduce_delta"]))
+            cfg["user_params"]["restarts.use_restarts"] = True
+            cfg["user_params"].pop("restarts.use_soft_restarts", None)
+            if i % 8 == 2:
+                cfg["user_params"]["growing.num_new_dirns_each_iter"] = int(rng.integers(2, 4))   # the set can fill up half-way through
     elif typ == "atmin":
         # x0 exactly at a minimiser with non-zero residual: no run ever makes strict progress
         n = int(rng.integers(1, 4))
@@ -293,13 +304,13 @@ def run_case(case):
     nder = 0
     if typ == "enum" and ref.exc is None:
         h = ref.built.h_raw if ref.built.h is not None else None
-        for c2 in campaign.exit_index_cfgs(cfg, ref, h=h, max_cases=20) + campaign.budget_index_cfgs(cfg, ref, max_cases=12):
+        for c2 in campaign.exit_index_cfgs(cfg, ref, h=h, max_cases=(30 if cfg.get("_variant") else 20)) + campaign.budget_index_cfgs(cfg, ref, max_cases=(60 if cfg.get("_variant") else 12)):
             one_run(c2, res, "%s %s" % (c2["_derived"]["kind"], c2["_derived"].get("M", c2["_derived"].get("j"))))
             nder += 1
             k = "derived|" + c2["_derived"]["kind"]
             res["stats"][k] = res["stats"].get(k, 0) + 1
     if typ == "failpt" and ref.exc is None:
-        for c2 in campaign.failpoint_cfgs(cfg, ref, max_lagrange=7, max_ratio=7):
+        for c2 in campaign.failpoint_cfgs(cfg, ref, max_lagrange=(25 if cfg.get("_variant", "").startswith("long-growing") else 7), max_ratio=7):
             r2 = one_run(c2, res, "%s %d of %d" % (c2["_derived"]["kind"], c2["_derived"]["j"], c2["_derived"]["of"]))
             nder += 1
             k = "derived|" + c2["_derived"]["kind"]
